@@ -577,4 +577,3 @@ func (w *World) checkDIDCommitted() error {
 	}
 	return nil
 }
-
